@@ -63,16 +63,21 @@ func Hist(t *rapid.T, o HistOpts) *History {
 	r0, u0 := newKey(), newKey()
 	origin := rapid.SampledFrom([]interface{}{nil, "origin-a", map[string]interface{}{"o": "b"}}).Draw(t, "anchorOrigin")
 	createClass := refmodel.DeltaGood
-	if o.BadDeltas && rapid.IntRange(0, 9).Draw(t, "createBad") == 0 {
-		createClass = rapid.SampledFrom([]string{refmodel.DeltaFailPatch, refmodel.DeltaInvalid}).Draw(t, "createClass")
+	createInvalid := ""
+	if o.BadDeltas && rapid.IntRange(0, 6).Draw(t, "createBad") == 0 {
+		createClass = rapid.SampledFrom([]string{refmodel.DeltaFailPatch, refmodel.DeltaInvalid, refmodel.DeltaInvalid, refmodel.DeltaMismatch}).Draw(t, "createClass")
+		if createClass == refmodel.DeltaInvalid {
+			createInvalid = rapid.SampledFrom([]string{hist.InvalidNoPatches, hist.InvalidBadCommit, hist.InvalidUnknownAction}).Draw(t, "createInvalidKind")
+		}
 	}
 	create := hist.NewCreate(hist.CreateSpec{Name: "create", Code: code, Recovery: r0, Update: u0,
-		Markers: map[string]interface{}{"c": "0"}, Opt: hist.Opt{AnchorOrigin: origin, Delta: createClass}})
+		Markers: map[string]interface{}{"c": "0"}, Opt: hist.Opt{AnchorOrigin: origin, Delta: createClass, InvalidKind: createInvalid}})
 	h.Suffix = create.Suffix
 	h.Ops = append(h.Ops, create)
 	var frontier []*state
 	s0 := &state{upd: u0, rec: r0}
-	if createClass == refmodel.DeltaInvalid {
+	if createClass == refmodel.DeltaInvalid || createClass == refmodel.DeltaMismatch {
+		// the create leaves no update commitment; operations signed with u0 are still generated now and then below
 		s0.upd = nil
 	}
 	frontier = append(frontier, s0)
